@@ -3,7 +3,7 @@
    [run n os] drives a fresh client over n nodes through the outcome script [os]
    (outcome of the selected node's request: success, RpcError, transport error, other exception).
    All theorems hold for every n > 0 and every outcome list (no length bound). *)
-From Coq Require Import List Arith Bool.
+From Coq Require Import List Arith Bool ZArith.
 From PV Require Import Client.MultiNode Proofs.MultiNode_proofs.
 Import ListNotations.
 
@@ -39,8 +39,33 @@ Theorem C28_must_advance_on_every_outcome : forall adv n o, 2 <= n -> adv o = fa
 Proof. exact must_advance. Qed.
 Print Assumptions C28_must_advance_on_every_outcome.
 
+(* the client driven through ANY of its entry points (request(m)/get/post/put/delete, all routed through
+   RpcMultiNode.request): call i goes to node i mod n, with the HTTP method of the entry point used, and
+   after k calls _next_i = k mod n *)
+Theorem C28_any_entry_point : forall n (cs : list (call * outcome)), 0 < n ->
+  (forall i, i < length cs -> nth_error (map wire_target (fst (run_calls n cs))) i = Some (Some (i mod n))) /\
+  map wire_method (fst (run_calls n cs)) = map (fun co => Some (call_method (fst co))) cs /\
+  snd (run_calls n cs) = length cs mod n.
+Proof.
+  intros n cs Hn. split; [intros i Hi; now apply ith_call_target|].
+  split; [now apply calls_methods | now apply calls_final].
+Qed.
+Print Assumptions C28_any_entry_point.
+
+(* elapsed time is not an input of the model: two sessions that differ only in the pauses before
+   the calls behave identically (the implementation consults no clock) *)
+Theorem C28_time_is_not_an_input : forall n (tcs tcs' : list (Z * (call * outcome))),
+  map snd tcs = map snd tcs' -> run_timed n tcs = run_timed n tcs'.
+Proof. exact timed_independent. Qed.
+Print Assumptions C28_time_is_not_an_input.
+
 (* non-vacuity / a concrete run: 3 nodes, failures in the middle *)
 Example C28_example :
   run 3 [Success; RpcErr; ConnErr; OtherErr; Success]
   = ([Sent 0 Success; Sent 1 RpcErr; Sent 2 ConnErr; Sent 0 OtherErr; Sent 1 Success], 2).
+Proof. vm_compute. reflexivity. Qed.
+
+Example C28_example_entry_points :
+  run_timed 2 [(0%Z, (CGet, Success)); (91%Z, (CPut, RpcErr)); (86400%Z, (CRequest DELETE, ConnErr)); (1%Z, (CPost, Success))]
+  = ([Wire 0 GET Success; Wire 1 PUT RpcErr; Wire 0 DELETE ConnErr; Wire 1 POST Success], 0).
 Proof. vm_compute. reflexivity. Qed.
